@@ -228,6 +228,53 @@ impl<'tcx> Cx<'tcx> {
         Some(format!("\"adt\":{{\"path\":{},\"fields\":{}}}", jstr(&path_of(tcx, adt.did())), jlist(&fields)))
     }
 
+    /// A reference value stored inside an allocation at `off` (thin or fat pointer): describe its referent.
+    fn read_ref_in_alloc(&self, alloc: &mir::interpret::Allocation, off: usize, ref_ty: Ty<'tcx>, pointee: Ty<'tcx>, depth: usize) -> Option<String> {
+        let tcx = self.tcx;
+        let prov = alloc.provenance().get_ptr(rustc_abi::Size::from_bytes(off as u64))?;
+        let raw = self.read_alloc_bytes(alloc, off, 8)?;
+        let mut poff: u64 = 0;
+        for (j, x) in raw.iter().enumerate() {
+            poff |= (*x as u64) << (8 * j);
+        }
+        let aid = prov.alloc_id();
+        let target = match tcx.try_get_global_alloc(aid)? {
+            mir::interpret::GlobalAlloc::Memory(a) => a,
+            _ => return None,
+        };
+        let tinner = target.inner();
+        match pointee.kind() {
+            ty::Str | ty::Slice(_) => {
+                let lraw = self.read_alloc_bytes(alloc, off + 8, 8)?;
+                let mut len: u64 = 0;
+                for (j, x) in lraw.iter().enumerate() {
+                    len |= (*x as u64) << (8 * j);
+                }
+                let esz = match pointee.kind() {
+                    ty::Str => 1,
+                    ty::Slice(e) => prim_size(*e)?,
+                    _ => return None,
+                };
+                let b = self.read_alloc_bytes(tinner, poff as usize, (len as usize) * esz)?;
+                if matches!(pointee.kind(), ty::Str) {
+                    let st = std::str::from_utf8(&b).ok()?;
+                    Some(format!("\"ty\":{},\"str\":{}", jstr(&ty_str(ref_ty)), jstr(st)))
+                } else {
+                    Some(format!("\"ty\":{},\"bytes\":{},\"esz\":{}", jstr(&ty_str(ref_ty)), jstr(&hex(&b)), esz))
+                }
+            }
+            _ => {
+                let cv = ConstValue::Indirect { alloc_id: aid, offset: rustc_abi::Size::from_bytes(poff) };
+                let nested = self.const_value_d(cv, pointee, depth + 1);
+                if nested.starts_with("\"v\"") || nested.starts_with("\"adt2\"") || nested.starts_with("\"adt\"") {
+                    Some(format!("\"ty\":{},\"ref\":{{{}}}", jstr(&ty_str(ref_ty)), nested))
+                } else {
+                    None
+                }
+            }
+        }
+    }
+
     /// Describe an evaluated constant value of type `t`.
     fn const_value(&self, cv: ConstValue, t: Ty<'tcx>) -> String {
         self.const_value_d(cv, t, 0)
@@ -272,6 +319,14 @@ impl<'tcx> Cx<'tcx> {
                     Some(mir::interpret::GlobalAlloc::Memory(a)) => {
                         let inner = a.inner();
                         if let Some(pt) = t.builtin_deref(true) {
+                            // pointee is itself a reference (`&&str`, `&&[u8]`, `&&T`): follow the stored pointer
+                            if depth < 4 {
+                                if let Some(pt2) = pt.builtin_deref(true) {
+                                    if let Some(nested) = self.read_ref_in_alloc(inner, off.bytes() as usize, pt, pt2, depth) {
+                                        return format!("\"ref\":{{{}}}", nested);
+                                    }
+                                }
+                            }
                             if let Some(sc) = self.struct_const(inner, off.bytes() as usize, pt) {
                                 return sc;
                             }
